@@ -5,6 +5,8 @@ from .. import core, diffprop
 
 class FrameSpec(diffprop.Spec):
     counts = dict(quick=500, thorough=12000)
+    gen_targets = ("guards",)   # T3: the integer skeleton of codec/frame/*.go, regenerated on every run
+    trusted_extra = ("nvextract guards extractor (harness/cmd/nvextract/guards.go, ~280 lines of go/ast): statements that are not assignments to an identifier, utils.AssertIf or utils.Assert are kept as source text without meaning",)
 
     def harness(self, seed, count, tier):
         rc, so, se = core.run([os.path.join(core.BIN, "nvh"), "-prop", self.id, "-seed", str(seed), "-count", str(count)], timeout=3000)
